@@ -670,6 +670,16 @@ theorem c12_reregistered_key_renders_new_template (cfg : Cfg) (ts : List (Str ×
   · unfold translateNamed; rw [e, hl]
   · unfold incRepl; rw [e, hl]; rfl
 
+/-- SEVERAL INSTANCES.  Whatever is done, in whatever interleaving, to any number of live instances (constructed,
+    constructed again under the same handle, `strict` / `filters` re-assigned, templates registered in any way):
+    instance `i` is in exactly the state that ITS OWN operations, in their order, lead to — its strictness, its
+    filter table, its registry.  Together with `c12_render_reads_registry_by_lookup_only` (the render is a function of
+    these three and the bindings): what one `Ribosome` renders depends neither on the others nor on anything in its
+    own past except the current values of `strict`, `filters`, `templates`. -/
+theorem c12_instances_are_independent (w : List (String × Inst)) (ops : List (String × InstOp)) (i : String) :
+    instGet (worldRun w ops) i = ((ops.filter (fun p => p.1 = i)).map (·.2)).foldl ownStep (instGet w i) :=
+  instGet_worldRun ops w i
+
 /-! ## Non-vacuity: the hypotheses are satisfiable by non-trivial data -/
 
 /-- an environment with one filter `up` that answers `U`, marker `[?name]` -/
@@ -872,5 +882,17 @@ example :
   refine ⟨by decide, by decide, by decide, ?_, by decide, by decide, by decide⟩
   intro k hk
   rcases hk with rfl | rfl <;> decide
+
+/-- `c12_instances_are_independent` on a concrete interleaving: instance `1` is created strict with a template under
+    `k`, instance `2` is created, re-registers `k` with another text and is made strict, instance `1` is made lenient:
+    each ends in the state of its own operations (a test of the concrete instance) -/
+example :
+    let ops : List (String × InstOp) :=
+      [("1", .create true "none" [.assign [107] [] [49]]), ("2", .create false "over" []),
+       ("2", .reg (.register [107] [111] [50])), ("2", .setStrict true), ("1", .setStrict false), ("3", .setStrict true)]
+    instGet (worldRun [] ops) "1" = some { strict := false, fset := "none", templates := [([107], [49])] } ∧
+    instGet (worldRun [] ops) "2" = some { strict := true, fset := "over", templates := [([107], [50])] } ∧
+    instGet (worldRun [] ops) "3" = none := by
+  decide
 
 end Operon.Tmpl
